@@ -883,6 +883,31 @@ def _marker_part(r: CacheRoles, x: ast.AST, lv: Set[str]):
     return None
 
 
+def _rule_lock_given_back(ctx: Ctx, r, rule: str) -> None:
+    """A creation lock taken by hand (`lock.acquire()` - directly or in a @contextmanager helper read in place) is given
+    back on every way out of the region, whatever raises inside it: decided on a graph whose raise model lets every call,
+    subscript and suspension raise.  (`with lock:` does this by construction.)"""
+    g = r.cfg
+    is_lock_call = lambda cfg, n, names=('acquire', 'release'): (
+        n.kind == 'call' and isinstance(n.ast.func, ast.Attribute) and n.ast.func.attr in names and cfg.res.path(n.ast.func.value) == r.lock)
+    acquires = [n for n in g.nodes if is_lock_call(g, n, ('acquire',))]
+    if not acquires:
+        ctx.holds(rule, f'the creation lock {r.lock} is only taken by with-statements', f'{FILE}:{r.wrapper.lineno}')
+        return
+    from .common import pessimistic_model
+    pm = pessimistic_model(ctx.program, ('lock', r.lock), is_lock_call)
+    g2 = build(r.wrapper, ctx.program, pm, inline_module_helpers=True)
+    acq2 = [n for n in g2.nodes if is_lock_call(g2, n, ('acquire',))]
+    rel2 = [n for n in g2.nodes if is_lock_call(g2, n, ('release',))]
+    for a in acq2:
+        starts = [e for e in g2.succ[a.id] if e.label != 'exc']
+        w = must_pass(g2, [], [g2.exit, g2.raise_exit], rel2, start_edges=starts)
+        ctx.check(rule, f'{norm(a.ast)} is paired with a release on every exit, exceptions inside the region included', g2.loc(a), w is None and bool(rel2),
+                  'released in a finally (or nothing between acquire and release can raise)',
+                  'an exception inside the region leaves the creation lock held for ever: every later miss of this function - any key, any thread - blocks its whole loop thread',
+                  witness=render(g2, w), construct=construct_key(r.wrapper.qualname, 'creation lock not released on an exit'))
+
+
 def c05(ctx: Ctx) -> None:
     r = _roles(ctx)
     from .common import rule_unbound
@@ -899,9 +924,12 @@ def c05(ctx: Ctx) -> None:
     ctx.rule('C05-R6', 'no path through the wait stage returns without passing the retry head', 1)
     ctx.rule('C05-R7', 'a closed or not-running marker loop always leads to take-over (never to waiting)', 1)
     ctx.rule('C05-R8', 'the Event set at WAKE is the very Event stored in this activation\'s marker (waiters wait on what is set)', 1)
+    ctx.rule('C05-R10', 'the caller that computed returns what it computed: after a successful invocation no path leads back to the retry head', 1)
+    ctx.rule('C05-R9', 'a creation lock taken by hand is given back on every exit of the region, exceptions included (nobody blocks on a leaked lock)', 1)
     if not _require_table(ctx, r, 'C05-R1'):
         _publish_roles(ctx, r)
         return
+    _rule_lock_given_back(ctx, r, 'C05-R9')
     exits = [g.exit, g.raise_exit] + ([r.HEAD] if r.HEAD else [])
     own = r.ownership_branches()
     # a removal that was just verified under the same hold of the lock cannot
@@ -1027,6 +1055,16 @@ def c05(ctx: Ctx) -> None:
                   detail_ok='normal completion of the wait reaches the retry head',
                   detail_bad='a woken waiter returns without re-reading the cache',
                   witness=render(g, wp), construct=construct_key(r.wrapper.qualname, 'wait returns'))
+    # R10: the caller that computed leaves with what it computed: its termination does not depend on the mapping
+    # retaining the entry (a size-0 or evicting cache would send it round the retry loop for ever)
+    for c in r.CALL:
+        ne = [e for e in g.succ[c.id] if e.label != 'exc']
+        wp = find_path(g, [], head, start_edges=ne) if head else None
+        ctx.check('C05-R10', f'after {norm(c.ast)} completed the computing caller does not go back to the retry head', _loc(g, c), wp is None,
+                  detail_ok='normal completion of the invocation leads to a return (or a raise), never back into the loop',
+                  detail_bad='the computing caller re-enters the retry loop after its invocation succeeded: with a mapping that does not '
+                             'retain the entry it recomputes for ever although every invocation finishes',
+                  witness=render(g, wp), construct=construct_key(r.wrapper.qualname, 'computing caller loops'))
     # R4
     bridge_calls = [n for n in g.nodes if n.kind == 'call' and call_name(g, n.ast) == 'asyncio.run_coroutine_threadsafe']
     for b in bridge_calls:
@@ -1236,6 +1274,17 @@ def c06(ctx: Ctx) -> None:
                   'one caller\'s failure costs the others a recomputation, not the safety timeout',
                   'waiters of a failed or cancelled computation are not woken: they sit out the 60 s timeout',
                   witness=render(g, w), construct=construct_key(r.wrapper.qualname, 'failure does not wake'))
+    # ... and so does one whose result the mapping refused (`__setitem__` of a caller-supplied cache raised): a computation
+    # that could not be cached is a failed computation
+    for pb in r.PUBLISH:
+        ee = [e for e in g.succ[pb.id] if e.label == 'exc']
+        if not ee:
+            continue
+        w = must_pass(g, [], exits, r.WAKE, start_edges=ee, edge_ok=feasible)
+        ctx.check('C06-R7', f'a failing store {norm(pb.ast)} wakes the waiters', _loc(g, pb), w is None and bool(r.WAKE),
+                  'a value the mapping refuses costs the others a recomputation, not the safety timeout',
+                  'when the caller-supplied mapping refuses the value the waiters are not woken and the marker stays: every later caller waits for a computation that is over',
+                  witness=render(g, w), construct=construct_key(r.wrapper.qualname, 'failed store does not wake'))
     # R4
     shield_awaits = [n for n in g.nodes if n.kind == 'await' and isinstance(n.ast.value, ast.Call)
                      and call_name(g, n.ast.value) == 'asyncio.shield']
